@@ -48,6 +48,7 @@ class CustShm(ParallelBackendBase):
 class CustProc(ParallelBackendBase):
     supports_sharedmem = False
     uses_threads = False
+    default_n_jobs = -1      # as the dask backend: "all workers" unless told otherwise
 
     def effective_n_jobs(self, n_jobs):
         return n_jobs
